@@ -38,8 +38,8 @@ def parseDateArg (j : Json) : Except String DateArg := do
   let k ← getStr j "k"
   match k with
   | "date" => pure (.date (← getNat j "ord"))
-  | "dtobj" => pure (.dtObj (← getNat j "ord") (← getNat j "sod") (← optInt j "off"))
-  | "dtstr" => pure (.dtStr (← getNat j "ord") (← getNat j "sod") (← optInt j "off"))
+  | "dtobj" => pure (.dtObj (← getNat j "ord") (← getNat j "sod") ((← optNat j "us").getD 0) (← optInt j "off"))
+  | "dtstr" => pure (.dtStr (← getNat j "ord") (← getNat j "sod") ((← optNat j "us").getD 0) (← optInt j "off"))
   | _ => throw s!"bad date arg {k}"
 
 def parseWDays (j : Json) (k : String) : Except String (Option (List WDay)) :=
@@ -60,7 +60,7 @@ def parseParams (j : Json) : Except String Params := do
     | some v => do pure (some (← parseDateArg v))
   pure {
     freq := ← parseFreq (← getStr j "freq"),
-    sOrd := ← getNat j "sord", sSod := ← getNat j "ssod", off := ← getInt j "off",
+    sOrd := ← getNat j "sord", sSod := ← getNat j "ssod", sUs := (← optNat j "sus").getD 0, off := ← getInt j "off",
     datePrecision := ← getBool j "dprec",
     interval := ← getInt j "interval",
     count := ← optNat j "count",
@@ -82,11 +82,11 @@ abbrev Res := Except String (List Inst × List Int)
 /-- instants carried by two sources with different utcoffsets: `rruleset` emits one of them
     (whichever its heap pops first), the model does not predict which -/
 def tiesAdj : List Inst → List Int
-  | a :: b :: t => if a.abs == b.abs && a.off != b.off then a.abs :: tiesAdj (b :: t) else tiesAdj (b :: t)
+  | a :: b :: t => if a.key == b.key && a.off != b.off then a.abs :: tiesAdj (b :: t) else tiesAdj (b :: t)
   | _ => []
 
 def tiesOf (l : List Inst) : List Int :=
-  tiesAdj (l.mergeSort (fun a b => a.abs < b.abs || (a.abs == b.abs && a.off ≤ b.off)))
+  tiesAdj (l.mergeSort (fun a b => a.key < b.key || (a.key == b.key && a.off ≤ b.off)))
 
 /-- a `Schedule.Event` with its `include` / `exclude` entries (nested events evaluated
     recursively; `fuel` bounds the nesting depth) -/
@@ -107,7 +107,7 @@ def evalSet (intended : Bool) (H : Int) : Nat → Json → Except String Res
     | .error e => return (.error (errName e))
     | .ok ls =>
       let base := ls.map r.inst
-      let norm := if intended then intendedDateArg p.sSod p.off else normDateArg p.sSod p.off
+      let norm := if intended then intendedDateArg p.sSod p.off else normDateArg p.sSod p.sUs p.off
       let split (a : Array Json) : Except String (Except String (List Inst × List (List Inst) × List Int)) := do
         let mut dates : List Inst := []
         let mut sets : List (List Inst) := []
@@ -136,7 +136,7 @@ def evalSet (intended : Bool) (H : Int) : Nat → Json → Except String Res
 
 def outToJson : Out → Json
   | .date o => Json.arr #[Json.str "d", Json.num (JsonNumber.fromInt o)]
-  | .datetime a o => Json.arr #[Json.str "dt", Json.num (JsonNumber.fromInt a), Json.num (JsonNumber.fromInt o)]
+  | .datetime a o u => Json.arr #[Json.str "dt", Json.num (JsonNumber.fromInt a), Json.num (JsonNumber.fromInt o), Json.num (JsonNumber.fromNat u)]
 
 def handle (m : String) (j : Json) : Except String Json := do
   match m with
